@@ -13,6 +13,9 @@ MCKindOrder4 == <<"http", "tcp", "grpc", "https+tcp+sni">>
 MCKindOrderTwins == <<"http", "tcp", "grpc", "http~2", "tcp~2", "grpc~2", "tcp+sni~2">>
 MCTunnelKinds == {"tcp", "tcp+sni", "https+tcp+sni", "tcp+tls", "tcp~2", "tcp+sni~2"}
 MCGrpcKinds == {"grpc", "grpc~2"}
+\* servers that proxy.serve starts in two steps the harness can take apart (not the tcpproxy-based one)
+MCNoKinds == {}
+MCLateKinds == {"http", "https", "tcp", "tcp+sni", "grpc", "tcp+tls"}
 MCDurOrder == <<"short", "long", "inf", "mute">>
 \* work that ends just within the wait, and connections that never get as far as a request: the client
 \* connected and sends nothing, or stops in the middle of its TLS ClientHello
@@ -23,7 +26,7 @@ MCDur == [d \in {"short", "edge", "long", "inf", "mute", "stall"} |->
              CASE d = "short" -> 1 [] d = "edge" -> W - 1 [] d = "long" -> W + 2 [] OTHER -> -1]
 
 ItemJson(it) == [srv |-> it.srv, dur |-> it.dur, at |-> it.at, st |-> it.st]
-Scenario == [kinds |-> kinds, tstart |-> tstart, tret |-> clock, w |-> W,
+Scenario == [kinds |-> kinds, tstart |-> tstart, tret |-> clock, w |-> W, late |-> late,
              items |-> [i \in DOMAIN items |-> ItemJson(items[i])]]
 
 GenNext == /\ Next
